@@ -1456,13 +1456,27 @@ PPL::Polyhedron::add_generator(const Generator& g) {
     if (g.is_necessarily_closed() || !is_necessarily_closed()) {
       // Since `gen_sys' is not empty, the topology and space dimension
       // of the inserted generator are automatically adjusted.
-      if (has_pending) {
-        gen_sys.insert_pending(g);
+      // Note: `g' may be a reference to a row of `gen_sys' itself, and the
+      // insertion may reallocate the rows: everything that is needed from
+      // `g' afterwards is taken (or copied) before the insertion.
+      const bool matching_closure_point_needed
+        = !is_necessarily_closed() && g.is_point();
+      if (!matching_closure_point_needed) {
+        if (has_pending) {
+          gen_sys.insert_pending(g);
+        }
+        else {
+          gen_sys.insert(g);
+        }
       }
       else {
-        gen_sys.insert(g);
-      }
-      if (!is_necessarily_closed() && g.is_point()) {
+        const Generator g_copy(g);
+        if (has_pending) {
+          gen_sys.insert_pending(g_copy);
+        }
+        else {
+          gen_sys.insert(g_copy);
+        }
         // In the NNC topology, each point has to be matched by
         // a corresponding closure point:
         // turn the just inserted point into the corresponding
@@ -1473,10 +1487,10 @@ PPL::Polyhedron::add_generator(const Generator& g) {
         PPL_ASSERT(gen_sys.sys.OK());
         // Re-insert the point (which is already normalized).
         if (has_pending) {
-          gen_sys.insert_pending(g);
+          gen_sys.insert_pending(g_copy);
         }
         else {
-          gen_sys.insert(g);
+          gen_sys.insert(g_copy);
         }
       }
     }
